@@ -9,6 +9,7 @@ import (
 	"go/constant"
 	"go/token"
 	"go/types"
+	"strings"
 
 	"golang.org/x/tools/go/ssa"
 )
@@ -504,6 +505,115 @@ var ruleWalkPaired = &Rule{
 			}
 		}
 		obs = append(obs, floor("WALK/paired-list-visit", "callees handed the element of a child list in functions that compare against a sibling list's length", n, 3))
+		return obs
+	},
+}
+
+// ---------------------------------------------------------------------------------------------
+// CFG/G13 (C17): the ignore gate decides alone
+//
+// Every handler asks AllProject.IsNeedHandle(file) and drops the request / the event when the answer is no. Three seeds
+// of three rounds weakened one such site without removing it: a second conjunct (`&& !IsHandleAsLua`), a gate asked only
+// for Created events. In both the file goes on to functions the gate was to keep it from.
+
+var ruleCfgG13 = &Rule{
+	Name:    "CFG/G13-gate-decides-alone",
+	NeedSSA: true,
+	Text:    "for every call v = AllProject.IsNeedHandle(file) in package langserver: v is branched on directly (v or !v), the kept successor has that branch as its only predecessor, and every other module call in the function that receives the same file value — logging aside, and calls that are made before the gate is asked — lies in a block dominated by the kept successor. A gate under a further condition, or one whose `no` can still be overruled by a second test, lets the files of an ignored folder reach the analysis",
+	Run: func(c *Ctx) []Ob {
+		var obs []Ob
+		gate := c.SSAFunc(checkPkg, "AllProject", "IsNeedHandle")
+		if gate == nil {
+			return []Ob{{Key: "CFG/G13:slots", Verdict: UNDECIDED, Note: "slot unresolved: AllProject.IsNeedHandle"}}
+		}
+		n := 0
+		for _, f := range c.ModFns() {
+			if f.Pkg == nil || f.Pkg.Pkg.Path() != modPath+"/langserver" {
+				continue
+			}
+			cnt := 0
+			for _, b := range f.Blocks {
+				for gi, ins := range b.Instrs {
+					call, ok := ins.(*ssa.Call)
+					if !ok || call.Call.StaticCallee() != gate || len(call.Call.Args) < 2 {
+						continue
+					}
+					n++
+					cnt++
+					key := fmt.Sprintf("CFG/G13:%s#%d", fnKey(f), cnt)
+					file := call.Call.Args[1]
+					// the branch
+					var kept *ssa.BasicBlock
+					for _, r := range *call.Referrers() {
+						var iff *ssa.If
+						neg := false
+						switch u := r.(type) {
+						case *ssa.If:
+							iff = u
+						case *ssa.UnOp:
+							if u.Op == token.NOT {
+								for _, r2 := range *u.Referrers() {
+									if i2, ok := r2.(*ssa.If); ok {
+										iff, neg = i2, true
+									}
+								}
+							}
+						}
+						if iff == nil {
+							continue
+						}
+						k := 0
+						if neg {
+							k = 1
+						}
+						kept = iff.Block().Succs[k]
+					}
+					if kept == nil || len(kept.Preds) != 1 {
+						obs = append(obs, Ob{Key: key, Site: c.Pos(call.Pos()), Verdict: VIOLATION,
+							Note: "the answer of IsNeedHandle is not branched on by itself (or the kept branch can be entered another way): the gate does not decide alone"})
+						continue
+					}
+					bad := ""
+					for _, b2 := range f.Blocks {
+						for i2, ins2 := range b2.Instrs {
+							c2, ok := ins2.(*ssa.Call)
+							if !ok || c2 == call {
+								continue
+							}
+							g := c2.Call.StaticCallee()
+							if g == nil || !c.IsModFn(g) || (g.Pkg != nil && strings.HasSuffix(g.Pkg.Pkg.Path(), "/log")) {
+								continue
+							}
+							uses := false
+							for _, a := range c2.Call.Args {
+								if a == file {
+									uses = true
+								}
+							}
+							if !uses {
+								continue
+							}
+							if b2 == b && i2 < gi {
+								continue // before the gate is asked
+							}
+							if b2 != b && b2.Dominates(b) {
+								continue
+							}
+							if !kept.Dominates(b2) {
+								bad = g.Name() + " at " + c.Pos(c2.Pos())
+							}
+						}
+					}
+					if bad != "" {
+						obs = append(obs, Ob{Key: key, Site: c.Pos(call.Pos()), Verdict: VIOLATION,
+							Note: "the file this gate is asked about reaches " + bad + " on a path that does not pass the gate's `yes`: the gate is asked under a condition, or its `no` is overruled by a further test"})
+					} else {
+						obs = append(obs, Ob{Key: key, Site: c.Pos(call.Pos()), Verdict: OK, Note: "every later use of the file lies behind the gate's yes"})
+					}
+				}
+			}
+		}
+		obs = append(obs, floor("CFG/G13-gate-decides-alone", "IsNeedHandle gates in package langserver", n, 5))
 		return obs
 	},
 }
